@@ -33,6 +33,24 @@ fn push_prefix(buffer: &mut String, single_type: bool, found_prefix_fully: bool)
     }
 }
 
+/// The spread form: the whole argument is exactly one %{name} reference.
+fn is_spread_reference(value: &str) -> bool {
+    let chars: Vec<char> = value.chars().collect();
+    let last = chars.len();
+
+    if last < 3 || chars[0] != '%' || chars[1] != '{' || chars[last - 1] != '}' {
+        return false;
+    }
+
+    for index in 2..(last - 1) {
+        if chars[index] == '}' || should_break_key(chars[index]) {
+            return false;
+        }
+    }
+
+    true
+}
+
 pub(crate) fn expand_by_wrapper(
     value: &str,
     meta_info: &InstructionMetaInfo,
@@ -101,16 +119,19 @@ pub(crate) fn expand_by_wrapper(
         value_string.push_str(&key);
     } else if prefix_index == 1 {
         push_prefix(&mut value_string, single_type, false);
-        single_type = true;
     }
 
+    // only an argument written as %{name} is spread into several arguments, a % sign or a
+    // %{name} reference inside other text does not split the argument
+    let spread = is_spread_reference(value);
+
     if value_string.is_empty() {
-        if single_type {
-            ExpandedValue::None
-        } else {
+        if spread {
             ExpandedValue::Multi(vec![])
+        } else {
+            ExpandedValue::None
         }
-    } else if single_type {
+    } else if !spread {
         ExpandedValue::Single(value_string.to_string())
     } else {
         let chars = value_string.to_string().chars().collect();
